@@ -251,7 +251,11 @@ class UniformMPS(MPS):
         hdf5_saver.save(self._AC, subpath + 'tensors_AC')
         hdf5_saver.save(self._C, subpath + 'tensors_C')
         hdf5_saver.save(self.chinfo, subpath + 'chinfo')
+        hdf5_saver.save(self.unit_cell_width, subpath + 'unit_cell_width')
         hdf5_saver.save(self.segment_boundaries, subpath + 'segment_boundaries')
+        if self.diagonal_gauge:
+            hdf5_saver.save(self._S, subpath + 'singular_values')
+        h5gr.attrs['diagonal_gauge'] = self.diagonal_gauge
         h5gr.attrs['valid_umps'] = self.valid_umps
         h5gr.attrs['norm'] = self.norm
         h5gr.attrs['grouped'] = self.grouped
@@ -415,11 +419,27 @@ class UniformMPS(MPS):
         obj.grouped = hdf5_loader.get_attr(h5gr, 'grouped')
         obj._transfermatrix_keep = hdf5_loader.get_attr(h5gr, 'transfermatrix_keep')
         obj.chinfo = hdf5_loader.load(subpath + 'chinfo')
+        if 'unit_cell_width' in h5gr:
+            obj.unit_cell_width = hdf5_loader.load(subpath + 'unit_cell_width')
+        else:
+            msg = (
+                'unit_cell_width is a new argument for MPS and similar classes. '
+                'It is optional for now, but will become mandatory in a future release. '
+                'The default value (unit_cell_width=len(sites)) is correct, iff the '
+                'lattice is a Chain. For other lattices, it is incorrect. '
+                'It is used for dipolar charges and correlation_function2.'
+            )
+            warnings.warn(msg, stacklevel=2)
+            obj.unit_cell_width = len(obj.sites)
         obj.dtype = np.result_type(*(B.dtype for B in obj._AR))
         if 'segment_boundaries' in h5gr:
             obj.segment_boundaries = hdf5_loader.load(subpath + 'segment_boundaries')
         else:
             obj.segment_boundaries = (None, None)
+        obj.diagonal_gauge = False
+        if 'singular_values' in h5gr:
+            obj._S = hdf5_loader.load(subpath + 'singular_values')
+            obj.diagonal_gauge = bool(hdf5_loader.get_attr(h5gr, 'diagonal_gauge'))
         obj.test_sanity()
         return obj
 
